@@ -206,3 +206,168 @@ def c14_r2(ctx):
 def c14_r3(ctx):
     c13_r3(ctx)
     c05_r4(ctx)
+
+
+def _index_terms(term):
+    """(collection, index) of every Index::index / IndexMut::index_mut call inside a symex term"""
+    out = []
+
+    def walk(x):
+        if isinstance(x, tuple):
+            if x and x[0] == 'call' and isinstance(x[1], str) and (x[1].endswith('Index::index') or x[1].endswith('IndexMut::index_mut')) and len(x[2]) == 2:
+                out.append((render(strip(x[2][0])), x[2][1]))
+            for y in x:
+                walk(y)
+    walk(term)
+    return out
+
+
+def _find(term, pred):
+    res = []
+
+    def walk(x):
+        if isinstance(x, tuple):
+            if pred(x):
+                res.append(x)
+            for y in x:
+                walk(y)
+    walk(term)
+    return res
+
+
+@rule('C12', 'R4', 'every element is accumulated into a prefix of the open slots (oldest first), once per slot, and a slot\'s count counts exactly its accumulations')
+def c12_r4(ctx):
+    """`count == size` (C12.R1) means "the slot holds N elements" only if count is incremented exactly where the accumulator is fed,
+    and the oldest slot receives every element only if the updated slots are 0..k. Both are shape facts; k itself is not decided."""
+    facts = ctx.facts
+    pr = facts.method(CWM, 'process', trait=WM)
+    fam = []
+    for g in facts.lib_fns():
+        if g.impl_adt == CWM and g.kind != 'closure' and g.name != 'clone':
+            fam.extend(facts.family(g))
+    sites = []
+    for g in fam:
+        s2 = q.sym(facts, g)
+        for bi, t in g.calls():
+            if (t['callee'].get('path') or '').endswith('WindowAccumulator::process'):
+                sites.append((g, s2, bi, t))
+    if not sites:
+        raise AnchorMissing('no WindowAccumulator::process call in CountWindowManager')
+    for g, s2, bi, t in sites:
+        recv = s2.operand(t['args'][0])
+        idx = [(c, i) for c, i in _index_terms(recv) if c.endswith('self.ws')]
+        if not idx:
+            ctx.viol('%s|accumulate-target' % g.path, t['at'], 'the accumulator that is fed is not a slot of self.ws (%s)' % render(strip(recv))[:80], None)
+            continue
+        idx_term = idx[0][1]
+        idx_s = render(strip(idx_term))
+        # count increments in the same function
+        incs = []
+        for b2, blk in enumerate(g.blocks):
+            for st in blk['s']:
+                if st['k'] == 'assign' and any(isinstance(e, list) and e[0] == 'f' and e[2] == 'count' for e in st['lhs'][1:]):
+                    rv = strip(s2.rvalue(st['rv']))
+                    r = render(rv)
+                    tgt = [render(strip(i)) for c, i in _index_terms(s2.place(st['lhs'])) if c.endswith('self.ws')] or \
+                          [render(strip(i)) for c, i in _index_terms(rv) if c.endswith('self.ws')]
+                    incs.append((b2, st, r, tgt))
+        ctx.inst('Count|accumulate|%s' % g.name, {'at': t['at'], 'slot index': idx_s[:100], 'count updates': [(x[2][:80], x[3]) for x in incs]})
+        good = [x for x in incs if x[2].startswith('AddWithOverflow(') and x[2].endswith('.count, 1_usize).0') and idx_s in x[3]]
+        if len(good) != 1 or len(incs) != 1:
+            ctx.viol('%s|count-accounting' % g.path, t['at'],
+                     'the slot fed by acc.process must have its count incremented by exactly one, once, on the same index '
+                     '(found updates %s for index `%s`)' % ([(x[2][:60], x[3]) for x in incs], idx_s[:60]), None)
+            continue
+        ib = good[0][0]
+        rets = g.return_blocks()
+        if not (all(g.dominates(ib, r) for r in rets) and all(g.dominates(bi, r) for r in rets)):
+            ctx.viol('%s|count-accounting-conditional' % g.path, t['at'],
+                     'the count increment and the accumulation of a slot are not both unconditional in %s: the count can drift from the '
+                     'number of accumulated elements' % g.name, None)
+        # where does the index come from
+        origins = []
+        params = {v: k for k, v in enumerate(g.arg_names())} if hasattr(g, 'arg_names') else {}
+        if idx_term and idx_term[0] == 'arg':
+            argi = idx_term[1]
+            for h in fam:
+                s3 = q.sym(facts, h)
+                for b3, t3 in h.calls():
+                    if (t3['callee'].get('resolved') or t3['callee'].get('path') or '') == g.path or (t3['callee'].get('path') or '').endswith('::' + g.name):
+                        origins.append((h, b3, t3, s3.operand(t3['args'][argi - 1])))
+        else:
+            origins.append((g, bi, t, idx_term))
+        if not origins:
+            raise AnchorMissing('no call site of %s found' % g.name)
+        for h, b3, t3, term in origins:
+            rng = _find(term, lambda x: x and x[0] == 'agg' and isinstance(x[1], tuple) and x[1][0] == 'adt' and x[1][1].startswith('std::ops::Range'))
+            shown = render(strip(term))[:160]
+            verdict = 'unknown'
+            if rng:
+                r = rng[0]
+                kind = r[1][1]
+                start = render(strip(r[2][0])) if r[2] else None
+                if kind == 'std::ops::Range' or kind == 'std::ops::RangeInclusive':
+                    verdict = 'prefix' if start == '0_usize' else 'not-prefix'
+                elif kind == 'std::ops::RangeTo' or kind == 'std::ops::RangeToInclusive':
+                    verdict = 'prefix'
+                else:
+                    verdict = 'not-prefix'
+            elif render(strip(term)) == '0_usize':
+                verdict = 'oldest-only'
+            ctx.inst('Count|updated slots|%s' % t3['at'], {'index': shown, 'classified': verdict})
+            if verdict == 'not-prefix':
+                ctx.viol('%s|updated-slots' % h.path, t3['at'],
+                         'the slots that receive an element are `%s`: not a prefix starting at the oldest slot, so the oldest window misses '
+                         'elements of its group' % shown, None)
+            elif verdict == 'unknown':
+                ctx.note('C12.R4: index expression `%s` not classified (neither a range nor a constant)' % shown)
+            # the update happens for every data element: only the loop condition and the data edge guard it
+            dnf = q.cond_of_block(facts, h, b3)
+            extra = [a for c in dnf for a in c if not (a[0] in ('is', 'isin') and (a[1] == 'el' or 'Iterator::next' in a[1] or 'next(' in a[1]))]
+            extra = [a for a in extra if not (a[0] == 'cmp' and 'len(' in a[1] + a[2])]
+            if h.path == pr.path and extra:
+                ctx.viol('%s|update-conditional' % h.path, t3['at'],
+                         'a data element is accumulated only under %s: other elements are dropped from their groups' % show_dnf([frozenset(extra)]), None)
+
+
+@rule('C14', 'R4', 'a session closed by the gap check is emitted whatever element triggered the check (the taken slot always reaches the return value)')
+def c14_r4(ctx):
+    """SessionWindowManager::process first takes an expired slot out of the manager and keeps its output in a local; that local
+    must flow into the returned value on every path, otherwise the session is in neither the manager nor the output (lost window)."""
+    facts = ctx.facts
+    sp = facts.method(SWM, 'process', trait=WM)
+    s2 = q.sym(facts, sp)
+    holders = []     # (local, block) assigned a WindowResult built from take(self.w)
+    for bi, blk in enumerate(sp.blocks):
+        for st in blk['s']:
+            if st['k'] == 'assign' and len(st['lhs']) == 1 and st['lhs'] != [0]:
+                term = s2.rvalue(st['rv'])
+                r = render(strip(term))
+                if r.startswith('Option::Some(') and 'WindowResult' in r and 'take(&self.w)' in r:
+                    holders.append((st['lhs'][0], bi, st))
+    # keep the outermost holder only (the Option local), not its parts
+    if not holders:
+        ctx.inst('Session::process|expired-result holder', {'found': False}, nontrivial=False)
+        ctx.note('C14.R4: no local holds the result of an expired session (shape not recognised); clause not decided on this tree')
+        return
+    for R, rb, st in holders:
+        reach = sp.reachable_from(rb)
+        writes = []
+        for bi in sorted(reach | {rb}):
+            blk = sp.blocks[bi]
+            for s_ in blk['s']:
+                if s_['k'] == 'assign' and s_['lhs'] == [0]:
+                    writes.append((bi, s_['at'], s2.rvalue(s_['rv'])))
+            t = blk['t']
+            if t['t'] == 'call' and t['dest'] == [0]:
+                writes.append((bi, t['at'], ('call', t['callee'].get('path'), tuple(s2.operand(a) for a in t['args']))))
+        ctx.inst('Session::process|expired result _%d' % R, {'assigned at': st['at'], 'return-value writes after it': [(at, render(strip(tm))[:80]) for _, at, tm in writes]})
+        if not writes:
+            raise AnchorMissing('SessionWindowManager::process: no return-value write after the gap check')
+        for bi, at, tm in writes:
+            uses = _find(tm, lambda x: x and x[0] in ('phi', 'local') and len(x) > 1 and x[1] == R)
+            if not uses:
+                ed = sorted(edges(q.cond_of_block(facts, sp, bi)))
+                ctx.viol('%s|expired-session-dropped|%s' % (sp.path, '+'.join(ed) or 'other'), at,
+                         'on the %s edge SessionWindowManager::process returns `%s`, which does not contain the result of the session the gap '
+                         'check has just taken out of the manager: that window is lost' % ('/'.join(ed) or 'remaining', render(strip(tm))[:60]), None)
